@@ -108,6 +108,7 @@ package utils
 //@   ensures ipv4: !prefixof("[", req.RemoteAddr) && indexof(req.RemoteAddr, ":") >= 1 && !contains(substr(req.RemoteAddr, indexof(req.RemoteAddr, ":") + 1, strlen(req.RemoteAddr)), ":") && !contains(req.RemoteAddr, "[") && !contains(req.RemoteAddr, "]") ==> result2 == nil && result0 == substr(req.RemoteAddr, 0, indexof(req.RemoteAddr, ":"))
 //@   ensures ipv6: prefixof("[", req.RemoteAddr) && indexof(req.RemoteAddr, "]") >= 2 && substr(req.RemoteAddr, indexof(req.RemoteAddr, "]") + 1, 1) == ":" && !contains(substr(req.RemoteAddr, 1, indexof(req.RemoteAddr, "]") - 1), "[") && !contains(substr(req.RemoteAddr, indexof(req.RemoteAddr, "]") + 2, strlen(req.RemoteAddr)), ":") && !contains(substr(req.RemoteAddr, indexof(req.RemoteAddr, "]") + 2, strlen(req.RemoteAddr)), "[") && !contains(substr(req.RemoteAddr, indexof(req.RemoteAddr, "]") + 2, strlen(req.RemoteAddr)), "]") ==> result2 == nil && result0 == substr(req.RemoteAddr, 1, indexof(req.RemoteAddr, "]") - 1)
 //@   ensures empty_address_refused: req.RemoteAddr == "" ==> result2 != nil
+//@   ensures token_never_empty: result2 == nil ==> result0 != ""
 
 //@ func extractHost
 //@   props C19
